@@ -93,8 +93,7 @@ def main():
         for d in disc:
             c.discard(d)
     c.cov["evaluations"] = len(sev) + len(pev)
-    symcamp.judge(c, "CorpusTrace.tla", "CorpusTrace.cfg", pev, shard=300)
-    symcamp.judge(c, "SymtabTrace.tla", "SymtabTrace.cfg", sev)
+    symcamp.judge(c, [("SymtabTrace.tla", "SymtabTrace.cfg", sev, 400), ("CorpusTrace.tla", "CorpusTrace.cfg", pev, 300)])
 
     nontrivial = set()
     modes = {}
